@@ -34,6 +34,13 @@ SMALL_CONTAINERS = [
     "[[]]", "[[1]]", "[[], [1]]", "({'a': 1},)", "({'a': 1}, {'a': 1})", "{'k': ({'a': 1}, [])}",
     "[{}]", "[{}, {'a': 1}]", "{1: {'a': 1}}", "{('a',): 1}", "[(1, 'a'), (2, 'b')]", "[(), (1,)]",
     "{'a': A}", "{'a': func}", "{'a': make_gen()}", "[A, B]", "[int, A]", "{'d': defaultdict(int, {'x': 1})}",
+    # dict shapes nested in non-list generics, one key set a strict subset of the other
+    "({'a': 1, 'b': 'x'},)", "{1: {'a': 1, 'b': 'x'}}", "({'a': 1}, 1)", "({'a': 1, 'b': 'x'}, 1)", "{'k': ({'a': 1, 'b': 'x'}, [])}",
+    # aliasing: one container object reachable at several places of the value
+    "[[1]] * 3", "dict.fromkeys(['a', 'b'], [1])", "(lambda r: [r, r])([1, 2])", "(lambda d: {'x': d, 'y': d})({'k': 1})",
+    "(lambda r: (r, [r]))(['s'])", "(lambda d: [d, {'z': d}])({'k': 's'})", "(lambda r: defaultdict(list, {'p': r, 'q': r}))([A()])",
+    # classes of user modules named like builtins
+    "TimeoutError()", "[TimeoutError(), Warning()]", "{'a': KeyError_()}", "Warning",
 ]
 
 BASIS = ATOMS + SMALL_CONTAINERS
@@ -105,9 +112,36 @@ def gen_value(rng, depth=0, maxdepth=4):
     return rng.choice(SMALL_CONTAINERS)
 
 
+def gen_small_dict(rng, keys="abcd", vals=("1", "'x'", "1.5", "None", "[1]")):
+    ks = rng.sample(keys, rng.choice([1, 1, 2, 2, 3]))
+    return "{" + ", ".join(f"'{k}': {rng.choice(vals)}" for k in ks) + "}"
+
+
+def gen_lod(rng):
+    """A list of small str-keyed dicts with differing key sets: merges to List[TD(optional ...)]."""
+    return "[" + ", ".join(gen_small_dict(rng) for _ in range(rng.choice([1, 2, 2, 3]))) + "]"
+
+
+WRAPS = ["({d},)", "{{1: {d}}}", "({d}, 1)", "[{d}]", "{{'w': {d}}}", "[({d},)]", "defaultdict(dict, {{'w': {d}}})"]
+
+
 def gen_multiset(rng, maxn=5):
     n = rng.choice([1, 2, 2, 3, 3, 4, maxn])
     mode = rng.random()
+    if mode < 0.12:  # two-level merges: lists of dicts whose element types are TypedDicts with optional keys
+        return [gen_lod(rng) if rng.random() < 0.8 else "[" + gen_lod(rng) + ", " + gen_lod(rng) + "]" for _ in range(max(2, n))]
+    if mode < 0.2:  # the same wrapper around dicts whose key sets are subsets of one another
+        w = rng.choice(WRAPS)
+        base = gen_small_dict(rng, vals=("1", "'x'"))
+        items = base[1:-1].split(", ")
+        out = [w.format(d=base)]
+        for _ in range(max(1, n - 1)):
+            sub = rng.sample(items, rng.randint(1, len(items)))
+            extra = [f"'{k}': {rng.choice(['1', repr('x')])}" for k in rng.sample("efg", rng.choice([0, 0, 1]))]
+            out.append(w.format(d="{" + ", ".join(sub + extra) + "}"))
+        rng.shuffle(out)
+        return out
+    mode = (mode - 0.2) / 0.8
     if mode < 0.25:  # dicts around a size limit
         base = rng.choice([1, 2, 3, 10])
         return [gen_dict(rng, 2, nkeys=max(0, base + rng.choice([-1, 0, 0, 1])), keymode="str") for _ in range(n)]
